@@ -16,7 +16,7 @@ SHAPES_1D = st.integers(1, 12).map(lambda n: [n])
 
 
 @st.composite
-def shapes(draw, max_cells=48, min_rank=1, max_rank=3):
+def shapes(draw, max_cells=48, min_rank=1, max_rank=3, min_cells=1):
     rank = draw(st.integers(min_rank, max_rank))
     dims = []
     cells = 1
@@ -26,6 +26,8 @@ def shapes(draw, max_cells=48, min_rank=1, max_rank=3):
             d = 1
         dims.append(d)
         cells *= d
+    if cells < min_cells:
+        dims[draw(st.integers(0, rank - 1))] = min_cells
     return dims
 
 
@@ -96,6 +98,19 @@ def _distinct(xs):
 
 
 @st.composite
+def _table_fault(draw, raws, vals):
+    """Occasionally (1 in 12) break a category / curve table: duplicate raw value or unequal lengths."""
+    f = draw(st.integers(0, 23))
+    raws, vals = list(raws), list(vals)
+    if f == 0 and len(raws) >= 1:
+        raws.append(raws[0])
+        vals.append(vals[0])
+    elif f == 1 and len(vals) >= 1:
+        vals = vals[:-1]
+    return raws, vals
+
+
+@st.composite
 def params_for(draw, cmd, n, pool, wild=False):
     """Scalar parameters of `cmd` from its documented domain.  `pool`: a few data values, so thresholds,
     categories and control points coincide with cells.  wild=True draws out-of-fuzzy-range values (C04)."""
@@ -132,6 +147,7 @@ def params_for(draw, cmd, n, pool, wild=False):
         k = draw(st.integers(0, 5))
         raws = _distinct(draw(st.lists(near, min_size=k, max_size=k)))
         vals = draw(st.lists(num, min_size=len(raws), max_size=len(raws)))
+        raws, vals = draw(_table_fault(raws, vals))
         p["RawValues"] = raws
         p["FuzzyValues" if cmd == "CvtToFuzzyCat" else "NormalValues"] = vals
         p["DefaultFuzzyValue" if cmd == "CvtToFuzzyCat" else "DefaultNormalValue"] = draw(num)
@@ -139,6 +155,7 @@ def params_for(draw, cmd, n, pool, wild=False):
         k = draw(st.integers(1, 6))
         raws = _distinct(draw(st.lists(near, min_size=k, max_size=k)))
         vals = draw(st.lists(num, min_size=len(raws), max_size=len(raws)))
+        raws, vals = draw(_table_fault(raws, vals))
         p["RawValues"] = raws
         p["FuzzyValues" if cmd == "CvtToFuzzyCurve" else "NormalValues"] = vals
     elif cmd in ("NormalizeMeanToMid", "CvtToFuzzyMeanToMid"):
@@ -155,18 +172,26 @@ def params_for(draw, cmd, n, pool, wild=False):
             p["TrueThreshold"] = draw(near)
         if which in ("both", "false"):
             p["FalseThreshold"] = draw(near)
-        d = draw(st.sampled_from([None, "LowToHigh", "HighToLow"]))
+        if which == "both" and p["TrueThreshold"] == p["FalseThreshold"] and draw(st.integers(0, 9)) > 0:
+            p["FalseThreshold"] = p["TrueThreshold"] + draw(st.sampled_from([-2, -0.5, 0.25, 1, 3]))
+        d = draw(st.sampled_from([None, "LowToHigh", "HighToLow", "LowToHigh", "HighToLow", "Sideways"]))
+        if d == "Sideways" and draw(st.integers(0, 4)) > 0:
+            d = "LowToHigh"
         if d:
             p["Direction"] = d
     elif cmd == "CvtToBinary":
         p["Threshold"] = draw(near)
-        p["Direction"] = draw(st.sampled_from(["LowToHigh", "HighToLow"]))
+        p["Direction"] = draw(st.sampled_from(["LowToHigh", "HighToLow"] * 8 + ["lowtohigh"]))
     elif cmd == "CvtFromFuzzy":
         p["TrueThreshold"] = draw(num)
         p["FalseThreshold"] = draw(num)
+        if p["TrueThreshold"] == p["FalseThreshold"] and draw(st.integers(0, 9)) > 0:
+            p["FalseThreshold"] = p["TrueThreshold"] - 1.5
     elif cmd == "FuzzySelectedUnion":
-        p["TruestOrFalsest"] = draw(st.sampled_from(["Truest", "Falsest"]))
+        p["TruestOrFalsest"] = draw(st.sampled_from(["Truest", "Falsest"] * 10 + ["Middle"]))
         p["NumberToConsider"] = draw(st.integers(1, max(1, n)))
+        if draw(st.integers(0, 19)) == 0:
+            p["NumberToConsider"] = n + draw(st.integers(1, 2))
     return p
 
 
@@ -182,13 +207,13 @@ def arity(cmd):
 
 @st.composite
 def unit_case(draw, cmds, max_rank=1, dtypes=("float64", "int64"), wild=False, mask_kind=None, min_cells=1,
-              max_cells=24, wide=False, same_dtype=False):
+              max_cells=24, wide=False, same_dtype=False, two_distinct=False):
     cmd = draw(st.sampled_from(list(cmds)))
     n = draw(arity(cmd))
     if max_rank == 1:
         shape = [draw(st.integers(min_cells, min(12, max_cells)))]
     else:
-        shape = draw(shapes(max_cells=max_cells, max_rank=max_rank))
+        shape = draw(shapes(max_cells=max_cells, max_rank=max_rank, min_cells=min_cells))
     size = 1
     for d in shape:
         size *= d
@@ -203,7 +228,23 @@ def unit_case(draw, cmds, max_rank=1, dtypes=("float64", "int64"), wild=False, m
             dtype = first_dtype
         first_dtype = first_dtype or dtype
         use_pool = [int(x) for x in pool] if dtype.startswith("int") else pool
-        arrays.append(draw(array_spec(size, dtype, fuzzy=fuzzy, pool=use_pool, mask_kind=mask_kind, wide=wide and not fuzzy)))
+        spec = draw(array_spec(size, dtype, fuzzy=fuzzy, pool=use_pool, mask_kind=mask_kind, wide=wide and not fuzzy))
+        if two_distinct and size >= 2:
+            m = spec["mask"] or [0] * size
+            if len(set(x for x, mm in zip(spec["data"], m) if not mm)) < 2:
+                i, j = draw(st.lists(st.integers(0, size - 1), min_size=2, max_size=2, unique=True))
+                a = draw(pool_src)
+                b = a + draw(st.sampled_from([-1, 1, 1, 2])) * (1 if not fuzzy else 0.25)
+                if fuzzy:
+                    b = max(-1.0, min(1.0, b))
+                    if b == a:
+                        b = a - 0.25
+                vals = [int(a), int(a) + (1 if int(b) <= int(a) else int(b) - int(a))] if dtype.startswith("int") else [a, b]
+                spec["data"][i], spec["data"][j] = vals
+                if spec["mask"] is not None:
+                    spec["mask"] = list(m)
+                    spec["mask"][i] = spec["mask"][j] = 0
+        arrays.append(spec)
     data_pool = [x for a in arrays for x, m in zip(a["data"], a["mask"] or [0] * size) if not m and math.isfinite(x)][:6]
     params = draw(params_for(cmd, n, data_pool or pool, wild=wild))
     return {"cmd": cmd, "params": params, "arrays": arrays, "shape": shape}
